@@ -16,6 +16,7 @@ from dsim.kernel import Violations
 from models.usb2_wire import gen_idle_data
 from models.usb2 import UTMIHost, token_packet
 from models import streams_usb2 as su
+from models.usb2_ctrl import hs_handshake, HS_HANDSHAKE_CYCLES
 from engines.usb2_device import device_bench, IDLE_INIT
 
 PROPERTY = "C13"
@@ -35,7 +36,7 @@ RULES = {
 }
 PROBES = ["nak_no_room", "ack_after_lost_ack_dup", "wrong_toggle_dup", "corrupt_ignored", "truncated_ignored", "zlp_accepted",
           "full_then_zlp_then_packet", "ping_ack", "ping_nak", "buffer_filled_runs", "v2_runs", "retry_after_corrupt_accepted",
-          "retry_after_nak_accepted"]
+          "retry_after_nak_accepted", "high_speed_runs"]
 META = {
     "components_real": ["USBDevice", "USBStreamOutEndpoint", "USBOutStreamBoundaryDetector", "TransactionalizedFIFO",
                         "USBDataPacketReceiver", "USBTokenDetector", "USBHandshakeGenerator", "USBDataPacketCRC",
@@ -116,6 +117,9 @@ def gen(rng, tier, index):
         "txready": rng.choice(["always", "always", ["every", 2], ["every", 3]]),
         "queue": queue,
     }
+    if variant == "V2" and index % 8 == 5 and (index // 48) % 12 == 0:
+        # a few runs at high speed: the device is first taken through a real bus reset + chirp handshake (inter-packet gap 1 cycle)
+        cfg["high_speed"] = True
     nops = rng.randint(nq, 3 * nq + 4)
     ops = []
     for _ in range(nops):
@@ -181,7 +185,7 @@ def run(scn):
     bench = device_bench(dev_cfg(variant, mps, b))
     init = dict(IDLE_INIT)
     if variant == "V2":
-        init["full_speed_only"] = 1
+        init["full_speed_only"] = 0 if cfg.get("high_speed") else 1
     viol = Violations()
     probes = {p: 0 for p in PROBES}
     ctx = su.HostCtx(variant, turn=cfg["turn"], tok_gap=cfg["tok_gap"])
@@ -194,6 +198,9 @@ def run(scn):
 
     def script(h):
         yield from h.idle(4)
+        if cfg.get("high_speed"):
+            yield from hs_handshake(h)
+            probes["high_speed_runs"] += 1
         for op in ops:
             k = op["op"]
             if k == "out":
@@ -228,7 +235,7 @@ def run(scn):
     host = UTMIHost(script, idle_data=cfg.get("idle_data"), byte_period=cfg["byte_period"], pre=cfg["pre"], post=cfg["post"], gap_pattern=cfg["gaps"], txready=txr)
     per_byte = cfg["byte_period"] + (max(cfg["gaps"]) if cfg["gaps"] else 0)
     per_txn = (mps + 10) * per_byte + 2 * ctx.timeout + 3 * ctx.turn + ctx.tok_gap + 60
-    max_cycles = 800 + sum(op.get("n", 0) for op in ops) + (len(ops) + drain_budget) * (per_txn + mps + 8) + 3 * bsize
+    max_cycles = (HS_HANDSHAKE_CYCLES if cfg.get("high_speed") else 0) + 800 + sum(op.get("n", 0) for op in ops) + (len(ops) + drain_budget) * (per_txn + mps + 8) + 3 * bsize
     log = bench.run([host, cons], max_cycles, init=init)
     if not host._done:
         raise RuntimeError(f"host script did not finish within {max_cycles} cycles")
